@@ -121,7 +121,13 @@ def run_scripted(sid, ctx):
     tag = f"s{sid}"
     trace = Trace()
     srng = harness.rng_for(ctx.seed, ID, "sync", sid)
-    be = ScriptedBackend(trace=trace, sync_in_submit=(lambda fut: srng.random() < sync_p) if sync_p else None)
+    # one run in six: a backend WITHOUT a retrieval callback (the base flavour of the backend API): the caller's thread fetches
+    # the results itself, in order, while completion callbacks only dispatch; such backends support neither generators nor timeouts
+    plain_api = sid % 6 == 2
+    if plain_api:
+        cfg["ra"] = "list"
+        ctx.count("scripted_calls_on_a_backend_without_retrieval_callback")
+    be = ScriptedBackend(trace=trace, sync_in_submit=(lambda fut: srng.random() < sync_p) if sync_p else None, retrieve_callback=not plain_api)
     profile = None
     if cfg["b"] == "auto" and not short and rng.random() < 0.6:
         # the real auto-batching heuristic fed with scripted batch durations (virtual time: nothing sleeps), so that the
@@ -177,7 +183,7 @@ def run_scripted(sid, ctx):
     th.join(40)
     ctx.evaluated()
     ctx.count("scripted_calls")
-    desc = dict(cfg, callback_threads=ncb, sync_in_submit_p=sync_p, sid=sid, duration_profile=profile)
+    desc = dict(cfg, callback_threads=ncb, sync_in_submit_p=sync_p, sid=sid, duration_profile=profile, retrieval_callback=not plain_api)
     if th.is_alive():
         # logical hang criterion: backend quiescent and no event for 6 s
         n0 = len(trace.events)
